@@ -372,13 +372,13 @@ Qed.
 (* ---------------------------------------------------------------- opens *)
 
 (* the code as it is: an accepted open passed its check on the value the handler computed *)
-Theorem open_check_healthy : forall s o s',
-  open_step s o = Ok s' ->
+Theorem open_check_healthy_prefix : forall s o s',
+  open_step_prefix s o = Ok s' ->
   sf (op_mod o) s < op_hcheck o /\
   (forall h, op_hnew o = Some h -> sf (op_mod o) s < h) /\
   pm (op_mod o) s' (op_owner o) (op_id o) = Some (op_pos o).
 Proof.
-  intros s o s' H. unfold open_step in H.
+  intros s o s' H. unfold open_step_prefix in H.
   destruct (op_pre o); cbn in H; [|discriminate].
   destruct (open_checks_on (op_hcheck o) (sf (op_mod o) s) o) eqn:Hc; cbn in H; [|discriminate].
   inversion H; subst s'. clear H.
@@ -389,13 +389,13 @@ Proof.
 Qed.
 
 (* whenever the checked value is the health of the position as stored, the property holds as stated *)
-Theorem open_healthy_when_check_is_final : forall s o s',
-  op_hcheck o = op_health o -> open_step s o = Ok s' -> sf (op_mod o) s < op_health o.
-Proof. intros s o s' E H. destruct (open_check_healthy s o s' H) as [A _]. rewrite <- E. exact A. Qed.
+Theorem open_healthy_when_check_is_final_prefix : forall s o s',
+  op_hcheck o = op_health o -> open_step_prefix s o = Ok s' -> sf (op_mod o) s < op_health o.
+Proof. intros s o s' E H. destruct (open_check_healthy_prefix s o s' H) as [A _]. rewrite <- E. exact A. Qed.
 
-Theorem open_boundary_rejected : forall s o, op_hcheck o <= sf (op_mod o) s -> is_ok (open_step s o) = false.
+Theorem open_boundary_rejected_prefix : forall s o, op_hcheck o <= sf (op_mod o) s -> is_ok (open_step_prefix s o) = false.
 Proof.
-  intros s o H. unfold open_step. destruct (op_pre o); cbn; [|reflexivity].
+  intros s o H. unfold open_step_prefix. destruct (op_pre o); cbn; [|reflexivity].
   unfold open_checks_on, open_ok. assert (E : (sf (op_mod o) s <? op_hcheck o) = false) by (apply Z.ltb_ge; lia).
   rewrite E, andb_false_r. reflexivity.
 Qed.
@@ -417,9 +417,9 @@ Qed.
 (* the two agree except when the checked value passes and the final health does not *)
 Lemma open_eq_fixed_off_site : forall s o,
   (open_ok (op_hcheck o) (sf (op_mod o) s) = true -> open_ok (op_health o) (sf (op_mod o) s) = true) ->
-  open_step_fixed s o = open_step s o.
+  open_step_fixed s o = open_step_prefix s o.
 Proof.
-  intros s o H. unfold open_step_fixed, open_step. destruct (op_pre o); cbn; [|reflexivity].
+  intros s o H. unfold open_step_fixed, open_step_prefix. destruct (op_pre o); cbn; [|reflexivity].
   unfold open_checks_on in *. destruct (match op_hnew o with Some h' => open_ok h' (sf (op_mod o) s) | None => true end); cbn; [|reflexivity].
   destruct (open_ok (op_hcheck o) (sf (op_mod o) s)) eqn:A; cbn; [|reflexivity].
   rewrite (H eq_refl). reflexivity.
@@ -437,13 +437,58 @@ Definition refuted_open : openop :=
 Definition refuted_state : state := mkSt (fun _ _ => None) (fun _ _ => None) (fun _ _ => 0) 1100000000000000000 1249997633333333332.
 
 Theorem open_healthy_refuted :
-  exists s o s', open_step s o = Ok s' /\ op_health o <= sf (op_mod o) s /\
+  exists s o s', open_step_prefix s o = Ok s' /\ op_health o <= sf (op_mod o) s /\
                  pm (op_mod o) s' (op_owner o) (op_id o) = Some (op_pos o) /\
                  perp_may_liquidate (op_health o) (sf (op_mod o) s') = true.
 Proof.
   exists refuted_state, refuted_open, (open_store refuted_state refuted_open).
   split; [vm_compute; reflexivity|]. split; [vm_compute; discriminate|]. split; vm_compute; reflexivity.
 Qed.
+
+(* ---- the code as it is (since fix: ba85cca) ---- *)
+Lemma open_step_ok_prefix : forall s o s', open_step s o = Ok s' -> open_step_prefix s o = Ok s'.
+Proof.
+  intros s o s' H. unfold open_step in H. unfold open_step_prefix.
+  destruct (op_pre o); cbn in *; [|discriminate].
+  destruct (open_checks_on (op_hcheck o) (sf (op_mod o) s) o); cbn in *; [|discriminate].
+  destruct (negb (rechecks (op_mod o)) || open_ok (op_health o) (sf (op_mod o) s)); cbn in *; [exact H|discriminate].
+Qed.
+
+Theorem open_check_healthy : forall s o s',
+  open_step s o = Ok s' ->
+  sf (op_mod o) s < op_hcheck o /\
+  (forall h, op_hnew o = Some h -> sf (op_mod o) s < h) /\
+  pm (op_mod o) s' (op_owner o) (op_id o) = Some (op_pos o).
+Proof. intros s o s' H. apply open_check_healthy_prefix. apply open_step_ok_prefix. exact H. Qed.
+
+Theorem open_healthy_when_check_is_final : forall s o s',
+  op_hcheck o = op_health o -> open_step s o = Ok s' -> sf (op_mod o) s < op_health o.
+Proof. intros s o s' E H. destruct (open_check_healthy s o s' H) as [A _]. rewrite <- E. exact A. Qed.
+
+Theorem open_healthy_perpetual : forall s o s',
+  op_mod o = MPerp -> open_step s o = Ok s' -> sf MPerp s < op_health o.
+Proof.
+  intros s o s' Em H. unfold open_step in H. rewrite Em in *.
+  destruct (op_pre o); cbn [negb] in H; [|discriminate].
+  destruct (open_checks_on (op_hcheck o) (sf MPerp s) o); cbn [negb andb orb rechecks] in H; [|discriminate].
+  destruct (open_ok (op_health o) (sf MPerp s)) eqn:B; cbn [negb andb orb] in H; [|discriminate].
+  unfold open_ok in B. apply Z.ltb_lt in B. exact B.
+Qed.
+
+Theorem open_boundary_rejected : forall s o, op_hcheck o <= sf (op_mod o) s -> is_ok (open_step s o) = false.
+Proof.
+  intros s o H. pose proof (open_boundary_rejected_prefix s o H) as P.
+  destruct (open_step s o) as [s'|c|c] eqn:E; try reflexivity.
+  apply open_step_ok_prefix in E. rewrite E in P. exact P.
+Qed.
+
+Theorem open_perp_final_boundary_rejected : forall s o,
+  op_mod o = MPerp -> op_health o <= sf MPerp s -> is_ok (open_step s o) = false.
+Proof.
+  intros s o Em H. destruct (open_step s o) as [s'|c|c] eqn:E; try reflexivity.
+  pose proof (open_healthy_perpetual s o s' Em E). lia.
+Qed.
+
 
 (* ---------------------------------------------------------------- owner close *)
 
@@ -490,4 +535,12 @@ Proof.
   intros s0 h o s H. unfold run. rewrite fold_left_app. cbn. fold (run s0 h). fold s.
   destruct (open_step s o) as [s'|c|c] eqn:E; cbn in H; try discriminate.
   destruct (open_check_healthy s o s' E) as [A [_ B]]. unfold run_tx. rewrite E. auto.
+Qed.
+
+Theorem history_open_healthy_perpetual : forall s0 h o,
+  let s := run s0 h in
+  op_mod o = MPerp -> is_ok (open_step s o) = true -> sf MPerp s < op_health o.
+Proof.
+  intros s0 h o s Em H. destruct (open_step s o) as [s'|c|c] eqn:E; cbn in H; try discriminate.
+  exact (open_healthy_perpetual s o s' Em E).
 Qed.
